@@ -150,3 +150,60 @@ func VH_C02_new_session_never_takes_over_a_live_sessions_identifier() {
 func VH_C10_replayed_handshake_datagram_never_costs_an_established_session() {
 	VH_C03_handshake_timeout_never_removes_an_established_session()
 }
+
+// C10 ("still completes a subsequent honest handshake"): a client that abandoned
+// a handshake after its ClientAck (crash, refused certificate, lost ServerAuth)
+// and tries again from the SAME address - e.g. every request of one delegate
+// connection, which reaches the target through one proxied socket - must be able
+// to finish the new handshake. So whenever the server answers a ClientAck with a
+// ServerAuth, the handshake it TRACKS for that address must be the one that
+// ServerAuth belongs to, and the session named in it must exist.
+//
+//verif:prop C10
+//verif:replay none
+//verif:stub crypto/rand.Read = hsRandRead
+//verif:bounds discoverable server with one certificate; a pending (abandoned) handshake for the source address or none; one ClientAck datagram of exact length and symbolic content from that address whose cookie opens (nondeterministic AEAD); duplex / KEM / DH outputs fresh
+//verif:cover answered-fresh;answered-after-abandoned-attempt;rejected
+//verif:timeout 600
+func VH_C10_a_serverauth_always_belongs_to_the_handshake_the_server_tracks() {
+	hsReset()
+	hsAvoidSIDs = nil
+	s, u := hsServer(false)
+	list := []*Certificate{hsServerCert("cert", true)}
+	s.config.GetCertList = func() ([]*Certificate, error) { return list, nil }
+	s.config.GetCertificate = func(ClientHandshakeInfo) (*Certificate, error) { return list[0], nil }
+	s.config.HandshakeTimeout = time.Second
+	addr := sessAddr4(10, 0, 0, 1, 4000)
+	abandoned := verifBool("an-abandoned-attempt-is-still-pending")
+	if abandoned {
+		old := hsNewState()
+		s.setHandshakeState(addr, old)
+		hsAvoidSIDs = [][4]byte{old.sessionID}
+	}
+	n := HeaderLen + DHLen + KemKeyLen + PQCookieLen + SNILen + MacLen
+	u.in, u.inLen, u.inAddr = verifBytes("clientack", n), n, addr
+	u.in[0] = byte(MessageTypeClientAck)
+	err := s.readPacket(make([]byte, 65535), make([]byte, 65535))
+	if err != nil || len(u.sent) == 0 {
+		verifCover("rejected")
+		return
+	}
+	if abandoned {
+		verifCover("answered-after-abandoned-attempt")
+	} else {
+		verifCover("answered-fresh")
+	}
+	sa := u.sent[len(u.sent)-1]
+	verifAssert(len(sa) >= HeaderLen+SessionIDLen && sa[0] == byte(MessageTypeServerAuth), "C10: a ClientAck is answered with a ServerAuth")
+	if len(sa) < HeaderLen+SessionIDLen {
+		return
+	}
+	tracked := s.handshakes[AddressHashKey(addr)]
+	verifAssert(tracked != nil, "C10: the server tracks a handshake for an address it has just sent a ServerAuth to")
+	if tracked == nil {
+		return
+	}
+	verifAssert(hsEq(tracked.sessionID[:], sa[HeaderLen:], SessionIDLen), "C10: the ServerAuth the client gets names the session of the handshake the server tracks for that address (otherwise the client's ClientAuth can only fail, and a retry from the same address is impossible until the old attempt times out)")
+	_, exists := s.sessions[tracked.sessionID]
+	verifAssert(exists, "C10: the session named in a ServerAuth exists")
+}
